@@ -54,6 +54,19 @@ pub fn c15(h: &mut H) {
             let gid = h.last();
             let v = pokverify(h, &pk.pok, &ck, &k.pk, &bases, &pk.revealed, &hidden, n);
             h.expect(v.is_true(), "C15.verify", "proof_verify(proof_gen(..)) != true", &[gid, h.last()]);
+            // minimum / maximum blindings: still complete
+            for mx in [false, true] {
+                let bt = boundary_tape(&pk.tape, mx);
+                let (pb, _) = call(h, "cl.pokgen", vec![pk.sig.clone(), ck.clone(), k.pk.clone(), ivs(&bases), ivs(&pk.msgs), uv(&hidden)], bt);
+                let bid = h.last();
+                if let Some(pb) = pb.ok().cloned() {
+                    let v = pokverify(h, &pb, &ck, &k.pk, &bases, &pk.revealed, &hidden, n);
+                    h.expect(v.is_true(), "C15.boundary_tape", "proof generated with extreme blindings does not verify", &[bid, h.last()]);
+                } else {
+                    h.expect(false, "C15.boundary_tape_gen", "proof_gen panicked on an extreme-blinding tape", &[bid]);
+                }
+                if n > 2 { break; }
+            }
             let reject = |h: &mut H, class: &str, pok: &Value, cpk_: &Value, pk_: &Value, bs: &[Integer], rev: &[Integer], hid: &[usize], nn: usize| {
                 h.stat(&format!("C15.neg.{}", class));
                 let v = pokverify(h, pok, cpk_, pk_, bs, rev, hid, nn);
